@@ -482,6 +482,18 @@ def _info_sets(out, specs, r):
             ia = StreamSeedInformation()
             ia.add_stream(nm0, MersenneTwister(specs[0][1]))
             ia.add_seed_values(nm0, [900 + k for k in range(r + 2)] if r < 64 else [900])
+            # one list registered for two streams (common random numbers), then a new list for one of them:
+            # the other stream keeps the seeds it was configured with
+            common = [500 + k for k in range(4)]
+            ia.add_stream("crn-twin", MersenneTwister(1))
+            ia.add_stream("crn-first", MersenneTwister(2))
+            ia.add_seed_values("crn-twin", common)
+            ia.add_seed_values("crn-first", common)
+            ia.add_seed_values("crn-first", [700, 701])
+            if list(ia.get_seed_values("crn-twin")) != [500, 501, 502, 503]:
+                out.fail("stream-sets:seed-list-of-another-stream-rewritten",
+                         {"stream": "crn-twin", "now": list(ia.get_seed_values("crn-twin"))[:5]})
+                return
             ib = StreamSeedInformation()
             ib.add_stream(nm0, MersenneTwister(specs[0][1]))
             if nm0 in ib.get_seeds():
